@@ -6,7 +6,7 @@
    validate_or_filter = encoding::validate_or_filter, gen_sb k = the loop body of a single-byte validator as
    GENERATED from private/encoding_validators.h.  Bytes and code points are N, strings are list N. *)
 From CppcmsV Require Import Base.Tac Base.CSem Base.Sweep C14.Defs C14.Spec C14.Proofs C14.Proofs2 C14.Proofs3
-  C14.Proofs4 C14.Link gen.Gen_C14.
+  C14.Proofs4 C14.Proofs5 C14.Proofs6 C14.Proofs7 C14.Link gen.Gen_C14.
 Local Open Scope N_scope.
 
 (* ---------------------------------------------------------------------------------------------------------
@@ -156,6 +156,25 @@ Theorem encode_length_is_width : forall c, Z.of_nat (length (encode c)) = width 
 Proof. exact encode_length. Qed.
 Print Assumptions encode_length_is_width.
 
+(* booster::locale::conv::utf_to_utf<char,char> (decode + re-encode): skip mode always yields well-formed text that
+   is a subsequence of the input and is the identity on well-formed input; stop mode throws (Some None) exactly on
+   text that is not well-formed *)
+Theorem utf_to_utf_skip_yields_wellformed : forall l,
+  exists o, utf_to_utf false l = Some (Some o) /\ validate false o = true /\ subseq o l /\ (validate false l = true -> o = l).
+Proof. exact utf_to_utf_skip. Qed.
+Print Assumptions utf_to_utf_skip_yields_wellformed.
+
+Theorem utf_to_utf_stop_throws_iff_malformed : forall l,
+  (validate false l = true /\ utf_to_utf true l = Some (Some l)) \/
+  (validate false l = false /\ utf_to_utf true l = Some None).
+Proof. exact utf_to_utf_stop. Qed.
+Print Assumptions utf_to_utf_stop_throws_iff_malformed.
+
+Example utf_to_utf_nonvacuous :
+  utf_to_utf false [72;237;160;128;195;169;226;130] = Some (Some [72;195;169]) /\
+  utf_to_utf true [72;237;160;128;195;169] = Some None /\ utf_to_utf true [72;195;169] = Some (Some [72;195;169]).
+Proof. repeat split; vm_compute; reflexivity. Qed.
+
 Example decoders_nonvacuous :
   booster_decode [240;159;152;128;1] = (Cp 128512, [1]) /\ cppcms_next false [240;159;152;128;1] = (Cp 128512, [1]) /\
   encode 128512 = [240;159;152;128] /\ booster_decode [240;159] = (Incomplete, []) /\ cppcms_next false [240;159] = (Illegal, []) /\
@@ -263,6 +282,18 @@ Theorem filter_only_deletes : forall l o, vof_utf8 0 l = FFiltered o -> subseq o
 Proof. exact vof_utf8_subseq. Qed.
 Print Assumptions filter_only_deletes.
 
+(* functional specification at the level of the grammar: whenever the filter returns false its output is the
+   token-wise image of the input, where a token is an HTML-safe UTF8-char (copied), a well-formed but unsafe UTF8-char
+   (replaced as a whole) or, where no UTF8-char starts (no_char_at), one single byte (replaced; decoding
+   resynchronises at the very next byte); this image is unique *)
+Theorem filter_utf8_tokenwise : forall repl l o, vof_utf8 repl l = FFiltered o -> Tok repl l o.
+Proof. exact vof_utf8_Tok. Qed.
+Print Assumptions filter_utf8_tokenwise.
+
+Theorem filter_tokens_functional : forall repl l o, Tok repl l o -> forall o', Tok repl l o' -> o = o'.
+Proof. exact Tok_functional. Qed.
+Print Assumptions filter_tokens_functional.
+
 Theorem filter_single_byte_cases : forall k repl l,
   (vof_sb (V_sb k) repl l = FValid /\ sb_valid k l = true) \/
   (exists o, vof_sb (V_sb k) repl l = FFiltered o /\ sb_valid k l = false /\
@@ -293,6 +324,40 @@ Proof.
   - right. unfold html_safe. lia.
   - right. vm_compute. reflexivity.
 Qed.
+
+(* ---------------------------------------------------------------------------------------------------------
+   5b. Form text widgets (src/form.cpp base_text::load + validate; enc = encoding name of the context locale):
+       invalid text is rejected and the length limits count code points (bytes for a single-byte charset or when
+       charset validation is switched off).  Limits in the range of a non-negative int; high = -1: no upper limit.
+   --------------------------------------------------------------------------------------------------------- *)
+Theorem form_text_utf8 : forall enc value low high,
+  lookup enc = Some V_utf8 -> (0 <= low < 2 ^ 31)%Z -> (-1 <= high < 2 ^ 31)%Z ->
+  (text_widget true enc value low high = Some true <->
+   exists cps, WF value cps /\ Forall html_safe cps /\
+               (low <= Z.of_nat (length cps))%Z /\ ((0 <= high)%Z -> (Z.of_nat (length cps) <= high)%Z)).
+Proof. exact text_widget_utf8. Qed.
+Print Assumptions form_text_utf8.
+
+Theorem form_text_single_byte : forall enc k value low high,
+  lookup enc = Some (V_sb k) -> (0 <= low < 2 ^ 31)%Z -> (-1 <= high < 2 ^ 31)%Z ->
+  (text_widget true enc value low high = Some true <->
+   sb_valid k value = true /\ (low <= Z.of_nat (length value))%Z /\ ((0 <= high)%Z -> (Z.of_nat (length value) <= high)%Z)).
+Proof. exact text_widget_single_byte. Qed.
+Print Assumptions form_text_single_byte.
+
+Theorem form_text_without_charset_validation : forall enc value low high,
+  (0 <= low < 2 ^ 31)%Z -> (-1 <= high < 2 ^ 31)%Z ->
+  (text_widget false enc value low high = Some true <->
+   (low <= Z.of_nat (length value))%Z /\ ((0 <= high)%Z -> (Z.of_nat (length value) <= high)%Z)).
+Proof. exact text_widget_no_charset. Qed.
+Print Assumptions form_text_without_charset_validation.
+
+Example form_text_nonvacuous :
+  text_widget true [85;84;70;45;56] [226;130;172;65] 2 2 = Some true /\      (* 4 bytes, 2 code points, limits 2..2 *)
+  text_widget true [85;84;70;45;56] [226;130;172;65] 3 (-1) = Some false /\
+  text_widget false [85;84;70;45;56] [226;130;172;65] 3 4 = Some true /\
+  text_widget true [85;84;70;45;56] [226;130;65] 0 (-1) = Some false.
+Proof. repeat split; vm_compute; reflexivity. Qed.
 
 (* ---------------------------------------------------------------------------------------------------------
    6. Encoding names: two names select the same validator iff they normalise (digits and letters, lower-cased,
